@@ -66,6 +66,10 @@ pub enum Mut {
     NonUtf8,
     /// a directory sits where the file should be
     Directory,
+    /// the content gets a UTF-8 byte order mark in front (an editor "saved with BOM")
+    PrependBom,
+    /// a blank and a word are inserted in front of / in the middle of the content (arg selects where)
+    InsertText(usize),
 }
 
 #[derive(Clone, Debug, PartialEq)]
@@ -107,6 +111,7 @@ impl Step {
             Step::Mutate(m) => match m {
                 Mut::FlipAlnum(k) => json!({"op": "Mutate", "kind": "FlipAlnum", "arg": k}),
                 Mut::Truncate(k) => json!({"op": "Mutate", "kind": "Truncate", "arg": k}),
+                Mut::InsertText(k) => json!({"op": "Mutate", "kind": "InsertText", "arg": k}),
                 Mut::ReplaceBy(s) => json!({"op": "Mutate", "kind": "ReplaceBy", "source": s}),
                 other => json!({"op": "Mutate", "kind": format!("{:?}", other)}),
             },
@@ -133,6 +138,8 @@ impl Step {
                 "ReplaceBy" => Mut::ReplaceBy(v.get("source")?.as_str()?.to_string()),
                 "NonUtf8" => Mut::NonUtf8,
                 "Directory" => Mut::Directory,
+                "PrependBom" => Mut::PrependBom,
+                "InsertText" => Mut::InsertText(v.get("arg")?.as_u64()? as usize),
                 _ => return None,
             }),
             "BreakInput" => Step::BreakInput(v.get("kind")?.as_str()?.to_string()),
@@ -463,6 +470,15 @@ fn exec_in(world: &World, sc: &Scenario, dir: &Path, stats: &mut Stats) -> Optio
                     (_, None) => { stats.hit("env_mutation_skipped_no_file"); continue; }
                     (Mut::Directory, _) => unreachable!(),
                     (Mut::NonUtf8, Some(c)) => { let mut o = vec![0xffu8, 0xfe, b'\n']; o.extend_from_slice(&c); Some(o) }
+                    (Mut::PrependBom, Some(c)) => { let mut o = vec![0xefu8, 0xbb, 0xbf]; o.extend_from_slice(&c); Some(o) }
+                    (Mut::InsertText(k), Some(mut c)) => {
+                        // at a char boundary: in front (k == 0) or somewhere inside
+                        let mut at = if *k == 0 || c.is_empty() { 0 } else { k % c.len() };
+                        while at < c.len() && (c[at] & 0xC0) == 0x80 { at += 1; }
+                        let ins: &[u8] = b" zz ";
+                        c.splice(at..at, ins.iter().cloned());
+                        Some(c)
+                    }
                     (Mut::ToCrlf, Some(c)) => {
                         let mut o = Vec::new();
                         for (k, &b) in c.iter().enumerate() {
@@ -502,6 +518,7 @@ fn exec_in(world: &World, sc: &Scenario, dir: &Path, stats: &mut Stats) -> Optio
                     Mut::RemoveFinalNewline => "env_mutation_remove_final_newline", Mut::FlipAlnum(_) => "env_mutation_flip_byte", Mut::Truncate(_) => "env_mutation_truncate",
                     Mut::Delete => "env_mutation_delete", Mut::Empty => "env_mutation_empty", Mut::AppendGarbage => "env_mutation_append_garbage", Mut::ReplaceBy(_) => "env_mutation_replace_by_other_enum",
                     Mut::NonUtf8 => "env_mutation_non_utf8_content", Mut::Directory => "env_mutation_directory_in_place_of_file",
+                    Mut::PrependBom => "env_mutation_prepend_bom", Mut::InsertText(_) => "env_mutation_insert_text",
                 });
                 dirty = true;
             }
@@ -688,7 +705,7 @@ fn gen_scenario(rng: &mut Rng, defs: &[Definition], index: u64, faults: bool) ->
             4 => Step::Mutate(Mut::FlipAlnum(rng.below(100_000))),
             5 => Step::Mutate(Mut::Truncate(rng.below(approx_len))),
             6 => Step::Write { fmt: false, plan: Plan { hash_seed: to_hex(&rng.bytes16()), rules: vec![format!("write:out.rs:{}:{}", rng.below(2), if rng.chance(1, 2) { "ENOSPC" } else { "EIO" }), format!("write:out.rs:*:SHORT:{}", rng.range(100, 3000))], rustfmt: "pass".into() } },
-            7 => Step::Mutate(Mut::AppendGarbage),
+            7 => Step::Mutate(match rng.below(3) { 0 => Mut::AppendGarbage, 1 => Mut::PrependBom, _ => Mut::InsertText(rng.below(3) * rng.below(50_000)) }),
             8 => Step::Mutate(Mut::ToLf),
             _ => Step::Edit { source: decorate(&defs[rng.below(defs.len())].source, rng) },
         });
@@ -713,9 +730,11 @@ fn gen_scenario(rng: &mut Rng, defs: &[Definition], index: u64, faults: bool) ->
                 Step::Edit { source: if rng.chance(1, 2) { decorate(&other.source, rng) } else { other.source.clone() } }
             }
             _ if rng.chance(1, 14) => Step::BreakInput(rng.pick(&["NonUtf8", "Missing", "NotRust", "Empty"]).to_string()),
-            _ => Step::Mutate(match rng.below(14) {
+            _ => Step::Mutate(match rng.below(17) {
                 12 => Mut::NonUtf8,
                 13 => Mut::Directory,
+                14 => Mut::PrependBom,
+                15 | 16 => Mut::InsertText(if rng.chance(1, 3) { 0 } else { rng.below(100_000) }),
                 0 | 1 => Mut::ToCrlf,
                 2 => Mut::ToLf,
                 3 => Mut::AddFinalNewline,
